@@ -92,4 +92,731 @@ theorem unaligned_get (W : Nat) (h8 : 8 ∣ W) (hW : 0 < W) (s : St) (h : s.Inv 
     simp [hj]
   · simp [hj]
 
+/-! ## `get_unchecked` / `set_unchecked` on an arbitrary store (private versions of the C05 layout lemmas) -/
+
+/-- word index of a field that fits in the store -/
+theorem field_wi {W p n sz : Nat} (hW : 0 < W) (hp : p + n ≤ W * sz) (hsz : 1 ≤ sz)
+    (hn : n = 0 → p = 0) : p / W < sz := by
+  apply Nat.div_lt_of_lt_mul
+  by_cases h : n = 0
+  · have := hn h
+    have : W * 1 ≤ W * sz := Nat.mul_le_mul_left W hsz
+    omega
+  · omega
+
+theorem field_wi_succ {W p n sz : Nat} (_hW : 0 < W) (hp : p + n ≤ W * sz)
+    (hn : W < p % W + n) : p / W + 1 < sz := by
+  apply Nat.lt_of_not_le
+  intro hge
+  have := Nat.mul_le_mul_right W hge
+  have := div_mod_decomp W p
+  rw [Nat.add_mul, Nat.mul_comm sz] at *
+  omega
+
+theorem getU_arr {W : Nat} (hW : 0 < W) (s : St) (hbw : s.bw ≤ W) (hok : WordsOK W s.words)
+    (hsz : 1 ≤ s.words.size) (i : Nat) (hi : i * s.bw + s.bw ≤ W * s.words.size) :
+    getU W s i = .ok (valAt W s.words s.bw i) := by
+  unfold getU
+  simp only []
+  have hd := div_mod_decomp W (i * s.bw)
+  have hwi := field_wi hW hi hsz (fun h => by rw [h]; rfl)
+  by_cases hc : i * s.bw % W + s.bw ≤ W
+  · rw [if_pos hc, readU_rd hwi]
+    simp only [Out.bind_ok, Out.pure_eq]
+    rw [elem_in_word s.words s.bw _ _ i hbw hc hd]
+  · rw [if_neg hc, readU_rd hwi, readU_rd (field_wi_succ hW hi (by omega))]
+    simp only [Out.bind_ok, Out.pure_eq]
+    have := Nat.mod_lt (i * s.bw) hW
+    rw [elem_straddle s.words hok s.bw _ _ i hbw (by omega) hd]
+
+theorem testBit_setOne {W bw : Nat} (w v bi b : Nat) (hbw : bw ≤ W) (hv : v < 2 ^ bw) (hb : b < W) :
+    ((w &&& notW W (shlW W (maskOf W bw) bi)) ||| shlW W v bi).testBit b
+      = if bi ≤ b ∧ b - bi < bw then v.testBit (b - bi) else w.testBit b := by
+  simp only [Nat.testBit_or, Nat.testBit_and, testBit_notW, testBit_shlW, testBit_maskOf hbw]
+  by_cases h1 : bi ≤ b
+  · by_cases h2 : b - bi < bw
+    · simp [h1, h2, hb]
+    · have : v.testBit (b - bi) = false := testBit_ge_of_lt hv (by omega)
+      simp [h1, h2, hb, this]
+  · simp [h1, hb]
+
+theorem testBit_setLo {W : Nat} (w v bi b : Nat) (hb : b < W) :
+    ((w &&& lowMask bi) ||| shlW W v bi).testBit b
+      = if bi ≤ b then v.testBit (b - bi) else w.testBit b := by
+  simp only [Nat.testBit_or, Nat.testBit_and, testBit_lowMask, testBit_shlW]
+  by_cases h1 : bi ≤ b
+  · have : ¬ b < bi := by omega
+    simp [h1, this, hb]
+  · have : b < bi := by omega
+    simp [h1, this]
+
+theorem testBit_setHi {W bw : Nat} (w v r b : Nat) (hbw : bw ≤ W) (hv : v < 2 ^ bw) (hb : b < W) :
+    ((w &&& notW W (maskOf W bw >>> r)) ||| (v >>> r)).testBit b
+      = if r + b < bw then v.testBit (r + b) else w.testBit b := by
+  simp only [Nat.testBit_or, Nat.testBit_and, testBit_notW, Nat.testBit_shiftRight,
+    testBit_maskOf hbw]
+  by_cases h1 : r + b < bw
+  · simp [h1, hb]
+  · have : v.testBit (r + b) = false := testBit_ge_of_lt hv (by omega)
+    simp [h1, hb, this]
+
+theorem setWords_arr {W : Nat} (hW : 0 < W) (ws : Array Nat) (hok : WordsOK W ws) (bw i v : Nat)
+    (hbw : bw ≤ W) (hsz : 1 ≤ ws.size) (hi : i * bw + bw ≤ W * ws.size) (hv : v < 2 ^ bw) :
+    ∃ ws', setWords W ws bw i v = .ok ws' ∧ ws'.size = ws.size ∧ WordsOK W ws' ∧
+      ∀ k, bitAt W ws' k =
+        if i * bw ≤ k ∧ k < i * bw + bw then v.testBit (k - i * bw) else bitAt W ws k := by
+  unfold setWords
+  simp only []
+  have hd := div_mod_decomp W (i * bw)
+  have hwi := field_wi hW hi hsz (fun h => by rw [h]; rfl)
+  have hbi := Nat.mod_lt (i * bw) hW
+  generalize i * bw = p at *
+  generalize p / W = wi at *
+  generalize p % W = bi at *
+  by_cases hc : bi + bw ≤ W
+  · rw [if_pos hc, readU_rd hwi]
+    simp only [Out.bind_ok, Out.pure_eq]
+    refine ⟨_, rfl, by simp, WordsOK_setIfInBounds hok _ _
+      (or_lt (and_lt_left _ (rd_lt hok _)) (shlW_lt _ _ _)), ?_⟩
+    by_cases h0 : bw = 0
+    · subst h0
+      intro k
+      rw [bitAt_setIfInBounds W ws wi _ k hwi]
+      have hr : ¬ (p ≤ k ∧ k < p + 0) := by omega
+      rw [if_neg hr]
+      by_cases hk : k / W = wi
+      · rw [if_pos hk, testBit_setOne _ _ _ _ hbw hv (Nat.mod_lt k hW), if_neg (by omega), bitAt_rd, hk]
+      · rw [if_neg hk]
+    · have h := assemble hW (fun t => v.testBit t) ws (ws.setIfInBounds wi
+          (rd ws wi &&& notW W (shlW W (maskOf W bw) bi) ||| shlW W v bi)) 0 p bw wi bi wi (by omega)
+          hd hbi (by omega) (by omega)
+        (by
+          intro b hb
+          rw [rd_set_self _ _ _ hwi, testBit_setOne _ _ _ _ hbw hv hb]
+          by_cases c : bi ≤ b ∧ b - bi < bw
+          · rw [if_pos c, if_pos (by omega)]; simp
+          · rw [if_neg c, if_neg (by omega)])
+        (by intro q h1 h2; omega) (by intro h; omega)
+        (by intro q hq; rw [rd_set_ne _ _ _ _ (by omega)])
+      intro k
+      rw [h k]
+      simp
+  · rw [if_neg hc, readU_rd hwi]
+    simp only [Out.bind_ok, Out.pure_eq]
+    have hwi1 : wi + 1 < ws.size := by
+      apply Nat.lt_of_not_le
+      intro hge
+      have := Nat.mul_le_mul_right W hge
+      rw [Nat.add_mul, Nat.mul_comm ws.size] at this
+      omega
+    rw [readU_rd (by simp; omega), rd_set_ne _ _ _ _ (by omega)]
+    simp only [Out.bind_ok]
+    have hvW : v < 2 ^ W := Nat.lt_of_lt_of_le hv (Nat.pow_le_pow_right (by omega) hbw)
+    refine ⟨_, rfl, by simp, ?_, ?_⟩
+    · exact WordsOK_setIfInBounds (WordsOK_setIfInBounds hok _ _
+        (or_lt (and_lt_left _ (rd_lt hok _)) (shlW_lt _ _ _))) _ _
+        (or_lt (and_lt_left _ (rd_lt hok _)) (shiftRight_lt _ hvW))
+    · have h := assemble hW (fun t => v.testBit t) ws ((ws.setIfInBounds wi
+          (rd ws wi &&& lowMask bi ||| shlW W v bi)).setIfInBounds (wi + 1)
+          (rd ws (wi + 1) &&& notW W (maskOf W bw >>> (W - bi)) ||| v >>> (W - bi)))
+          0 p bw wi bi (wi + 1) (by omega) hd hbi (by rw [Nat.add_mul]; omega)
+          (by rw [Nat.add_mul]; omega)
+        (by
+          intro b hb
+          rw [rd_set_ne _ _ _ _ (by omega), rd_set_self _ _ _ hwi, testBit_setLo _ _ _ _ hb]
+          by_cases c : bi ≤ b
+          · rw [if_pos c, if_pos (by omega)]; simp
+          · rw [if_neg c, if_neg (by omega)])
+        (by intro q h1 h2; omega)
+        (by
+          intro _ b hb
+          rw [rd_set_self _ _ _ (by simp; omega), testBit_setHi _ _ _ _ hbw hv hb, Nat.add_mul,
+            Nat.one_mul]
+          by_cases c : W - bi + b < bw
+          · rw [if_pos c, if_pos (by omega)]
+            show v.testBit _ = v.testBit _
+            congr 1; omega
+          · rw [if_neg c, if_neg (by omega)])
+        (by intro q hq; rw [rd_set_ne _ _ _ _ (by omega), rd_set_ne _ _ _ _ (by omega)])
+      intro k
+      rw [h k]
+      simp
+
+theorem fits_iff' (W bw v : Nat) (h : bw ≤ W) : fits W bw v = true ↔ v < 2 ^ bw := by
+  unfold fits
+  rw [beq_iff_eq]
+  constructor
+  · intro e
+    apply Nat.lt_pow_two_of_testBit
+    intro j hj
+    rw [← e, Nat.testBit_and, testBit_maskOf h]
+    have : ¬ j < bw := by omega
+    simp [this]
+  · intro hv
+    apply Nat.eq_of_testBit_eq
+    intro j
+    rw [Nat.testBit_and, testBit_maskOf h]
+    by_cases hj : j < bw
+    · simp [hj]
+    · rw [testBit_ge_of_lt hv (by omega)]; simp
+
+theorem get_inv (W : Nat) (hW : 0 < W) (s : St) (h : s.Inv W) (i : Nat) :
+    get W s i = if i ≥ s.len then .panic else .ok (valAt W s.words s.bw i) := by
+  unfold get
+  by_cases hi : i ≥ s.len
+  · rw [if_pos hi, if_pos hi]
+  · rw [if_neg hi, if_neg hi]
+    obtain ⟨h1, h2, h3, h4⟩ := h
+    have := succ_mul_le s.bw (show i < s.len by omega)
+    exact getU_arr hW s h1 h4 h3 i (by omega)
+
+theorem set_inv (W : Nat) (hW : 0 < W) (s : St) (h : s.Inv W) (i v : Nat) :
+    (i ≥ s.len ∨ ¬ v < 2 ^ s.bw) ∧ set W s i v = .panic ∨
+    i < s.len ∧ v < 2 ^ s.bw ∧ ∃ ws', set W s i v = .ok { s with words := ws' } ∧
+      ws'.size = s.words.size ∧ WordsOK W ws' ∧
+      ∀ k, bitAt W ws' k =
+        if i * s.bw ≤ k ∧ k < i * s.bw + s.bw then v.testBit (k - i * s.bw) else bitAt W s.words k := by
+  obtain ⟨h1, h2, h3, h4⟩ := h
+  unfold set
+  by_cases hi : i ≥ s.len
+  · left; exact ⟨Or.inl hi, by rw [if_pos hi]⟩
+  · rw [if_neg hi]
+    by_cases hv : v < 2 ^ s.bw
+    · right
+      have hfit : fits W s.bw v = true := (fits_iff' W s.bw v h1).2 hv
+      rw [hfit]
+      simp only [Bool.not_true, Bool.false_eq_true, if_false]
+      have := succ_mul_le s.bw (show i < s.len by omega)
+      obtain ⟨ws', e, r⟩ := setWords_arr hW s.words h4 s.bw i v h1 h3 (by omega) hv
+      refine ⟨by omega, hv, ws', ?_, r⟩
+      unfold setU
+      rw [e]; rfl
+    · left
+      have hfit : fits W s.bw v = false := by
+        cases hf : fits W s.bw v with
+        | false => rfl
+        | true => exact absurd ((fits_iff' W s.bw v h1).1 hf) hv
+      rw [hfit]
+      exact ⟨Or.inr hv, rfl⟩
+
+/-- `dst[lo + k] = c[k]` for `k < n` -/
+theorem writeback (c : Array Nat) (lo : Nat) : ∀ (n : Nat) (ws : Array Nat), lo + n ≤ ws.size →
+    ((List.range n).foldl (fun ws k => ws.setIfInBounds (lo + k) (c.getD k 0)) ws).size = ws.size ∧
+    ∀ q, rd ((List.range n).foldl (fun ws k => ws.setIfInBounds (lo + k) (c.getD k 0)) ws) q
+      = if lo ≤ q ∧ q < lo + n then rd c (q - lo) else rd ws q := by
+  intro n
+  induction n with
+  | zero =>
+    intro ws _
+    refine ⟨rfl, ?_⟩
+    intro q
+    rw [if_neg (by omega)]; rfl
+  | succ n ih =>
+    intro ws h
+    obtain ⟨ih1, ih2⟩ := ih ws (by omega)
+    rw [List.range_succ, List.foldl_append]
+    simp only [List.foldl_cons, List.foldl_nil]
+    refine ⟨by rw [Array.size_setIfInBounds]; exact ih1, ?_⟩
+    intro q
+    rw [rd_set, ih2 q, ih1]
+    by_cases hq : q = lo + n
+    · subst hq
+      rw [if_pos ⟨rfl, by omega⟩, if_pos (by omega)]
+      have : lo + n - lo = n := by omega
+      rw [this]; rfl
+    · rw [if_neg (by omega)]
+      by_cases hq2 : lo ≤ q ∧ q < lo + n
+      · rw [if_pos hq2, if_pos (by omega)]
+      · rw [if_neg hq2, if_neg (by omega)]
+
+/-- element-level reading of a single-field write -/
+theorem vals_set_of_bits (W : Nat) (s : St) (ws' : Array Nat) (idx v : Nat) (_hidx : idx < s.len)
+    (hv : v < 2 ^ s.bw)
+    (bits : ∀ k, bitAt W ws' k = if idx * s.bw ≤ k ∧ k < idx * s.bw + s.bw
+      then v.testBit (k - idx * s.bw) else bitAt W s.words k) :
+    ({ s with words := ws' } : St).vals W = (s.vals W).set idx v := by
+  apply List.ext_getElem
+  · simp [vals_length]
+  · intro t h1 h2
+    rw [vals_getElem, List.getElem_set]
+    have ht : t < s.len := by simpa [vals_length] using h1
+    show valAt W ws' s.bw t = _
+    by_cases hti : idx = t
+    · subst hti
+      rw [if_pos rfl]
+      symm
+      apply eq_valAt
+      intro j
+      by_cases hj : j < s.bw
+      · rw [bits, if_pos (by omega)]
+        have : idx * s.bw + j - idx * s.bw = j := by omega
+        simp [hj, this]
+      · rw [testBit_ge_of_lt hv (by omega)]; simp [hj]
+    · rw [if_neg hti, vals_getElem]
+      unfold valAt
+      apply bitsVal_congr
+      intro j hj
+      rw [bits, if_neg]
+      intro hc
+      by_cases hlt : t < idx
+      · have := succ_mul_le s.bw hlt; omega
+      · have := succ_mul_le s.bw (show idx < t by omega); omega
+
+/-! ## `try_chunks_mut` -/
+
+theorem divCeil_zero (W : Nat) (hW : 0 < W) : divCeil 0 W = 0 := by
+  unfold divCeil
+  apply Nat.div_eq_of_lt
+  omega
+
+/-- geometry of chunk `j`: its word range is non-empty, inside the store, starts at the bit where
+element `j * cs` starts, and is long enough for the chunk's elements -/
+theorem chunk_geom (W : Nat) (hW : 0 < W) (len bw cs j sz : Nat) (hN : len * bw ≤ W * sz)
+    (hc : len ≤ cs ∨ (cs * bw) % W = 0) (hcw : divCeil (cs * bw) W ≠ 0)
+    (hjn : j * divCeil (cs * bw) W < divCeil (len * bw) W) :
+    j * divCeil (cs * bw) W < min ((j + 1) * divCeil (cs * bw) W) (divCeil (len * bw) W) ∧
+    min ((j + 1) * divCeil (cs * bw) W) (divCeil (len * bw) W) ≤ sz ∧
+    min cs (len - j * cs) * bw
+      ≤ W * (min ((j + 1) * divCeil (cs * bw) W) (divCeil (len * bw) W) - j * divCeil (cs * bw) W) ∧
+    j * divCeil (cs * bw) W * W = j * cs * bw := by
+  have hC : 0 < cs * bw := by
+    apply Nat.pos_of_ne_zero
+    intro h0
+    rw [h0, divCeil_zero W hW] at hcw
+    exact hcw rfl
+  have hNpos : 0 < len * bw := by
+    apply Nat.pos_of_ne_zero
+    intro h0
+    rw [h0, divCeil_zero W hW] at hjn
+    omega
+  obtain ⟨m, em, hm1, hm2⟩ := divCeil_arith W (len * bw) hW hNpos
+  obtain ⟨c, ec, hc1, hc2⟩ := divCeil_arith W (cs * bw) hW hC
+  simp only [em, ec] at hjn hcw ⊢
+  have hmsz : m < sz := by
+    apply Nat.lt_of_not_le
+    intro hge
+    have := Nat.mul_le_mul_right W hge
+    rw [Nat.mul_comm W] at hN
+    omega
+  have hlo1 : j * (c + 1) < (j + 1) * (c + 1) := by rw [Nat.add_mul]; omega
+  have hnwW : (m + 1) * W = m * W + W := by rw [Nat.add_mul, Nat.one_mul]
+  have hcwW : (c + 1) * W = c * W + W := by rw [Nat.add_mul, Nat.one_mul]
+  refine ⟨by omega, by omega, ?_⟩
+  by_cases hdiv : (cs * bw) % W = 0
+  · -- the chunk size in bits is a whole number of words
+    have hCW : cs * bw = (c + 1) * W := by
+      by_cases ht : cs * bw = c * W + W
+      · rw [hcwW]; exact ht
+      · exfalso
+        obtain ⟨_, e4⟩ := div_mod_of_range W c (cs * bw) (by omega) (by omega)
+        omega
+    have hX : j * (c + 1) * W = j * cs * bw := by
+      rw [Nat.mul_assoc, ← hCW, Nat.mul_assoc]
+    refine ⟨?_, hX⟩
+    have h1 : min cs (len - j * cs) * bw ≤ cs * bw := Nat.mul_le_mul_right bw (Nat.min_le_left _ _)
+    have h2 : min cs (len - j * cs) * bw ≤ len * bw - j * cs * bw := by
+      rw [← Nat.sub_mul]
+      exact Nat.mul_le_mul_right bw (Nat.min_le_right _ _)
+    by_cases hle : (j + 1) * (c + 1) ≤ m + 1
+    · rw [Nat.min_eq_left hle]
+      have : (j + 1) * (c + 1) - j * (c + 1) = c + 1 := by rw [Nat.add_mul]; omega
+      rw [this, Nat.mul_comm W, ← hCW]
+      exact h1
+    · rw [Nat.min_eq_right (show m + 1 ≤ (j + 1) * (c + 1) by omega)]
+      have e : W * (m + 1 - j * (c + 1)) = (m + 1) * W - j * (c + 1) * W := by
+        rw [Nat.mul_comm, Nat.sub_mul]
+      rw [e, hX, hnwW]
+      omega
+  · -- a single chunk holding the whole vector
+    have hlen : len ≤ cs := by
+      cases hc with
+      | inl h => exact h
+      | inr h => exact absurd h hdiv
+    have hNC : len * bw ≤ cs * bw := Nat.mul_le_mul_right bw hlen
+    have hmc : m ≤ c := by
+      apply Nat.le_of_not_lt
+      intro hlt
+      have := succ_mul_le W hlt
+      omega
+    have hj0 : j = 0 := by
+      apply Nat.eq_zero_of_not_pos
+      intro hpos
+      have : c + 1 ≤ j * (c + 1) := Nat.le_mul_of_pos_left _ hpos
+      omega
+    subst hj0
+    simp only [Nat.zero_mul, Nat.zero_add, Nat.one_mul, Nat.sub_zero]
+    refine ⟨?_, trivial⟩
+    rw [Nat.min_eq_right (by omega : m + 1 ≤ c + 1), Nat.min_eq_right hlen, Nat.mul_comm W, hnwW]
+    exact hm2
+
+theorem extract_facts (W : Nat) (ws : Array Nat) (lo hi : Nat) (hhi : hi ≤ ws.size)
+    (hok : WordsOK W ws) :
+    (ws.extract lo hi).size = hi - lo ∧ WordsOK W (ws.extract lo hi) ∧
+    (∀ q, q < hi - lo → rd (ws.extract lo hi) q = rd ws (lo + q)) ∧
+    ∀ k, k < (hi - lo) * W → bitAt W (ws.extract lo hi) k = bitAt W ws (lo * W + k) := by
+  have hsz : (ws.extract lo hi).size = hi - lo := by
+    rw [Array.size_extract, Nat.min_eq_left hhi]
+  have hrd : ∀ q, q < hi - lo → rd (ws.extract lo hi) q = rd ws (lo + q) := by
+    intro q hq
+    unfold rd
+    simp only [Array.getD_eq_getD_getElem?, Array.getElem?_extract, Nat.min_eq_left hhi, hq, if_true]
+  refine ⟨hsz, ?_, hrd, ?_⟩
+  · apply WordsOK_of_getD
+    intro i hi'
+    rw [hsz] at hi'
+    have := hrd i hi'
+    unfold rd at this
+    rw [this]
+    exact getD_lt_of_WordsOK hok _
+  · intro k hk
+    by_cases hW : W = 0
+    · subst hW; omega
+    · have hW' : 0 < W := by omega
+      have hd := div_mod_decomp W k
+      have hr := Nat.mod_lt k hW'
+      have hq : k / W < hi - lo := by
+        apply Nat.lt_of_not_le
+        intro hge
+        have := Nat.mul_le_mul_right W hge
+        omega
+      rw [bitAt_rd, hrd _ hq]
+      have e : lo * W + k = (lo + k / W) * W + k % W := by rw [Nat.add_mul]; omega
+      rw [e, bitAt_word _ _ _ hr]
+
+/-- the `St` that `ChunksMut::next` hands out for chunk `j` -/
+def chunkSt (W : Nat) (s : St) (cs j : Nat) : St :=
+  { words := s.words.extract (j * divCeil (cs * s.bw) W)
+      (min ((j + 1) * divCeil (cs * s.bw) W) (divCeil (s.len * s.bw) W)),
+    bw := s.bw, len := min cs (s.len - j * cs) }
+
+/-- the write-back of a chunk's words -/
+def chunkBack (ws c' : Array Nat) (lo n : Nat) : Array Nat :=
+  (List.range n).foldl (fun ws k => ws.setIfInBounds (lo + k) (c'.getD k 0)) ws
+
+theorem chunkOp_eq (W : Nat) (s : St) (cs j i : Nat) (v : Option Nat) :
+    chunkOp W s cs j i v =
+      if s.len ≤ cs || (cs * s.bw) % W == 0 then
+        if divCeil (s.len * s.bw) W > s.words.size then .panic
+        else if divCeil (cs * s.bw) W == 0 then .panic
+        else if j * divCeil (cs * s.bw) W ≥ divCeil (s.len * s.bw) W then .ok .noChunk
+        else match v with
+          | some v => (set W (chunkSt W s cs j) i v) >>= fun c' =>
+              .ok (.done ⟨chunkBack s.words c'.words (j * divCeil (cs * s.bw) W)
+                (min ((j + 1) * divCeil (cs * s.bw) W) (divCeil (s.len * s.bw) W)
+                  - j * divCeil (cs * s.bw) W), s.bw, s.len⟩)
+          | none => (get W (chunkSt W s cs j) i) >>= fun x => .ok (.value x)
+      else .ok .err := by
+  unfold chunkOp chunkSt chunkBack
+  cases v <;> rfl
+
+theorem divCeil_exact (W C : Nat) (hW : 0 < W) (hC : 0 < C) (hdiv : C % W = 0) :
+    divCeil C W * W = C := by
+  obtain ⟨c, ec, hc1, hc2⟩ := divCeil_arith W C hW hC
+  rw [ec, Nat.add_mul, Nat.one_mul]
+  by_cases ht : C = c * W + W
+  · exact ht.symm
+  · exfalso
+    obtain ⟨_, e4⟩ := div_mod_of_range W c C (by omega) (by omega)
+    omega
+
+theorem divCeil_le_size (W N sz : Nat) (hW : 0 < W) (h : N ≤ W * sz) : divCeil N W ≤ sz := by
+  by_cases hN : N = 0
+  · subst hN; rw [divCeil_zero W hW]; omega
+  · obtain ⟨m, em, hm1, hm2⟩ := divCeil_arith W N hW (by omega)
+    rw [em]
+    apply Nat.lt_of_not_le
+    intro hge
+    have := Nat.mul_le_mul_right W hge
+    rw [Nat.mul_comm W] at h
+    omega
+
+/-- a chunk index that addresses an existing element is produced by the iterator -/
+theorem chunk_reach (W : Nat) (hW : 0 < W) (len bw cs j : Nat)
+    (hc : len ≤ cs ∨ (cs * bw) % W = 0) (hpos : 0 < cs * bw) (hj : j * cs < len) :
+    divCeil (cs * bw) W ≠ 0 ∧ j * divCeil (cs * bw) W < divCeil (len * bw) W := by
+  have hbw : 0 < bw := Nat.pos_of_mul_pos_left hpos
+  have hNpos : 0 < len * bw := Nat.mul_pos (by omega) hbw
+  obtain ⟨m, em, hm1, hm2⟩ := divCeil_arith W (len * bw) hW hNpos
+  obtain ⟨c, ec, hc1, hc2⟩ := divCeil_arith W (cs * bw) hW hpos
+  refine ⟨by omega, ?_⟩
+  by_cases hdiv : (cs * bw) % W = 0
+  · have hex := divCeil_exact W (cs * bw) hW hpos hdiv
+    have h1 := succ_mul_le bw hj
+    have h2 : j * divCeil (cs * bw) W * W = j * cs * bw := by
+      rw [Nat.mul_assoc, hex, Nat.mul_assoc]
+    rw [em]
+    apply Nat.lt_of_mul_lt_mul_right (a := W)
+    rw [h2, Nat.add_mul, Nat.one_mul]
+    omega
+  · have hlen : len ≤ cs := by
+      cases hc with
+      | inl h => exact h
+      | inr h => exact absurd h hdiv
+    have hj0 : j = 0 := by
+      apply Nat.eq_zero_of_not_pos
+      intro hp
+      have : cs ≤ j * cs := Nat.le_mul_of_pos_left _ hp
+      omega
+    subst hj0
+    omega
+
+/-- chunk `j` as a `St`: satisfies the invariant, and its bits are the bits of the parent starting
+at element `j * cs` -/
+theorem chunkSt_facts (W : Nat) (hW : 0 < W) (s : St) (h : s.Inv W) (cs j : Nat)
+    (hc : s.len ≤ cs ∨ (cs * s.bw) % W = 0) (hcw : divCeil (cs * s.bw) W ≠ 0)
+    (hjn : j * divCeil (cs * s.bw) W < divCeil (s.len * s.bw) W) :
+    (chunkSt W s cs j).Inv W ∧
+    j * divCeil (cs * s.bw) W + (chunkSt W s cs j).words.size ≤ s.words.size ∧
+    (chunkSt W s cs j).words.size = min ((j + 1) * divCeil (cs * s.bw) W) (divCeil (s.len * s.bw) W)
+      - j * divCeil (cs * s.bw) W ∧
+    j * divCeil (cs * s.bw) W * W = j * cs * s.bw ∧
+    ∀ k, k < (chunkSt W s cs j).words.size * W →
+      bitAt W (chunkSt W s cs j).words k = bitAt W s.words (j * cs * s.bw + k) := by
+  obtain ⟨h1, h2, h3, h4⟩ := h
+  obtain ⟨g1, g2, g3, g4⟩ := chunk_geom W hW s.len s.bw cs j s.words.size h2 hc hcw hjn
+  obtain ⟨e1, e2, e3, e4⟩ := extract_facts W s.words (j * divCeil (cs * s.bw) W)
+    (min ((j + 1) * divCeil (cs * s.bw) W) (divCeil (s.len * s.bw) W)) g2 h4
+  refine ⟨⟨h1, ?_, ?_, e2⟩, ?_, e1, g4, ?_⟩
+  · show min cs (s.len - j * cs) * s.bw ≤ W * (s.words.extract _ _).size
+    rw [e1]; exact g3
+  · show 1 ≤ (s.words.extract _ _).size
+    rw [e1]; omega
+  · show _ + (s.words.extract _ _).size ≤ _
+    rw [e1]; omega
+  · intro k hk
+    have hk' : k < (min ((j + 1) * divCeil (cs * s.bw) W) (divCeil (s.len * s.bw) W)
+        - j * divCeil (cs * s.bw) W) * W := by
+      have : (chunkSt W s cs j).words.size = _ := e1
+      rw [this] at hk; exact hk
+    rw [← g4]
+    exact e4 k hk'
+
+theorem chunk_get (W : Nat) (hW : 0 < W) (s : St) (h : s.Inv W) (cs j i : Nat)
+    (hc : s.len ≤ cs ∨ (cs * s.bw) % W = 0) (hpos : 0 < cs * s.bw) (hj : j * cs < s.len)
+    (hi : i < min cs (s.len - j * cs)) :
+    chunkOp W s cs j i none = .ok (.value (valAt W s.words s.bw (j * cs + i))) := by
+  obtain ⟨hcw, hjn⟩ := chunk_reach W hW s.len s.bw cs j hc hpos hj
+  obtain ⟨cinv, f1, f2, f3, f4⟩ := chunkSt_facts W hW s h cs j hc hcw hjn
+  rw [chunkOp_eq]
+  have c0 : (decide (s.len ≤ cs) || (cs * s.bw) % W == 0) = true := by
+    cases hc with
+    | inl h => simp [h]
+    | inr h => simp [h]
+  have c1 : ¬ (divCeil (s.len * s.bw) W > s.words.size) := by
+    have := divCeil_le_size W _ _ hW h.2.1
+    omega
+  have c2 : (divCeil (cs * s.bw) W == 0) = false := by simp [hcw]
+  rw [c0, if_pos rfl, if_neg c1, c2]
+  simp only [Bool.false_eq_true, if_false]
+  rw [if_neg (by omega)]
+  rw [get_inv W hW _ cinv i]
+  have hlen : (chunkSt W s cs j).len = min cs (s.len - j * cs) := rfl
+  rw [if_neg (by rw [hlen]; omega)]
+  simp only [Out.bind_ok]
+  congr 2
+  show valAt W (chunkSt W s cs j).words s.bw i = _
+  unfold valAt
+  apply bitsVal_congr
+  intro t ht
+  have hfit := cinv.2.1
+  rw [hlen] at hfit
+  have hb : (chunkSt W s cs j).bw = s.bw := rfl
+  rw [hb] at hfit
+  have := succ_mul_le s.bw hi
+  have ht' : t < s.bw := ht
+  have e := Nat.mul_comm W (chunkSt W s cs j).words.size
+  rw [f4 _ (by omega)]
+  congr 1
+  rw [Nat.add_mul]; omega
+
+theorem chunkBack_bits (W : Nat) (hW : 0 < W) (ws c : Array Nat) (lo n : Nat) (h : lo + n ≤ ws.size)
+    (hok : WordsOK W ws) (hcok : WordsOK W c) :
+    (chunkBack ws c lo n).size = ws.size ∧ WordsOK W (chunkBack ws c lo n) ∧
+    ∀ k, bitAt W (chunkBack ws c lo n) k =
+      if lo * W ≤ k ∧ k < lo * W + n * W then bitAt W c (k - lo * W) else bitAt W ws k := by
+  obtain ⟨w1, w2⟩ := writeback c lo n ws h
+  have hsz : (chunkBack ws c lo n).size = ws.size := w1
+  have hrd : ∀ q, rd (chunkBack ws c lo n) q
+      = if lo ≤ q ∧ q < lo + n then rd c (q - lo) else rd ws q := w2
+  refine ⟨hsz, ?_, ?_⟩
+  · apply WordsOK_of_getD
+    intro i _
+    have := hrd i
+    unfold rd at this
+    rw [this]
+    split
+    · exact getD_lt_of_WordsOK hcok _
+    · exact getD_lt_of_WordsOK hok _
+  · apply bitAt_ext_word hW
+    intro q r hr
+    rw [hrd q]
+    by_cases hq : lo ≤ q ∧ q < lo + n
+    · have a1 := Nat.mul_le_mul_right W hq.1
+      have a2 := succ_mul_le W hq.2
+      rw [Nat.add_mul] at a2
+      rw [if_pos hq, if_pos (by omega)]
+      obtain ⟨e, rfl⟩ : ∃ e, q = lo + e := ⟨q - lo, by omega⟩
+      have e1 : lo + e - lo = e := by omega
+      have e2 : (lo + e) * W + r - lo * W = e * W + r := by rw [Nat.add_mul]; omega
+      rw [e1, e2, bitAt_word _ _ _ hr]
+    · rw [if_neg hq, bitAt_word _ _ _ hr]
+      by_cases hlt : q < lo
+      · have := succ_mul_le W hlt
+        rw [if_neg (by omega)]
+      · have : lo + n ≤ q := by omega
+        have := Nat.mul_le_mul_right W this
+        rw [Nat.add_mul] at this
+        rw [if_neg (by omega)]
+
+theorem chunk_set (W : Nat) (hW : 0 < W) (s : St) (h : s.Inv W) (cs j i v : Nat)
+    (hc : s.len ≤ cs ∨ (cs * s.bw) % W = 0) (hpos : 0 < cs * s.bw) (hj : j * cs < s.len)
+    (hi : i < min cs (s.len - j * cs)) (hv : v < 2 ^ s.bw) :
+    ∃ s', chunkOp W s cs j i (some v) = .ok (.done s') ∧ s'.len = s.len ∧ s'.bw = s.bw ∧
+      s'.words.size = s.words.size ∧ s'.Inv W ∧
+      (∀ k, bitAt W s'.words k =
+        if (j * cs + i) * s.bw ≤ k ∧ k < (j * cs + i) * s.bw + s.bw
+        then v.testBit (k - (j * cs + i) * s.bw) else bitAt W s.words k) ∧
+      s'.vals W = (s.vals W).set (j * cs + i) v := by
+  obtain ⟨hcw, hjn⟩ := chunk_reach W hW s.len s.bw cs j hc hpos hj
+  obtain ⟨cinv, f1, f2, f3, f4⟩ := chunkSt_facts W hW s h cs j hc hcw hjn
+  rw [chunkOp_eq]
+  have c0 : (decide (s.len ≤ cs) || (cs * s.bw) % W == 0) = true := by
+    cases hc with
+    | inl h => simp [h]
+    | inr h => simp [h]
+  have c1 : ¬ (divCeil (s.len * s.bw) W > s.words.size) := by
+    have := divCeil_le_size W _ _ hW h.2.1
+    omega
+  have c2 : (divCeil (cs * s.bw) W == 0) = false := by simp [hcw]
+  rw [c0, if_pos rfl, if_neg c1, c2]
+  simp only [Bool.false_eq_true, if_false]
+  rw [if_neg (by omega)]
+  have hlen : (chunkSt W s cs j).len = min cs (s.len - j * cs) := rfl
+  have hb : (chunkSt W s cs j).bw = s.bw := rfl
+  rcases set_inv W hW _ cinv i v with ⟨hbad, _⟩ | ⟨_, _, ws', e, sz', ok', bits'⟩
+  · rw [hlen, hb] at hbad
+    omega
+  · rw [e]
+    simp only [Out.bind_ok]
+    rw [← f2]
+    obtain ⟨b1, b2, b3⟩ := chunkBack_bits W hW s.words ws' (j * divCeil (cs * s.bw) W)
+      (chunkSt W s cs j).words.size f1 h.2.2.2 ok'
+    have hidx : j * cs + i < s.len := by omega
+    have hfit := cinv.2.1
+    rw [hlen, hb] at hfit
+    have hin := succ_mul_le s.bw hi
+    have e1 := Nat.mul_comm W (chunkSt W s cs j).words.size
+    have hbits : ∀ k, bitAt W (chunkBack s.words ws' (j * divCeil (cs * s.bw) W)
+          (chunkSt W s cs j).words.size) k =
+        if (j * cs + i) * s.bw ≤ k ∧ k < (j * cs + i) * s.bw + s.bw
+        then v.testBit (k - (j * cs + i) * s.bw) else bitAt W s.words k := by
+      intro k
+      rw [b3 k, f3, Nat.add_mul]
+      by_cases hk : j * cs * s.bw ≤ k ∧ k < j * cs * s.bw + (chunkSt W s cs j).words.size * W
+      · rw [if_pos hk, bits' _, hb]
+        by_cases hk2 : i * s.bw ≤ k - j * cs * s.bw ∧ k - j * cs * s.bw < i * s.bw + s.bw
+        · rw [if_pos hk2, if_pos (by omega)]
+          congr 1; omega
+        · rw [if_neg hk2, if_neg (by omega), f4 _ (by omega)]
+          congr 1; omega
+      · rw [if_neg hk, if_neg (by omega)]
+    refine ⟨_, rfl, rfl, rfl, b1, ⟨h.1, by rw [b1]; exact h.2.1, by rw [b1]; exact h.2.2.1, b2⟩,
+      hbits, ?_⟩
+    exact vals_set_of_bits W s _ (j * cs + i) v hidx hv hbits
+
+/-- all outcomes of a chunk operation: `Err` exactly when the chunk size is not word aligned and
+more than one chunk would be needed; otherwise a panic (`chunks_mut(0)`, index or value out of
+range), "no such chunk", or the result — never an out-of-bounds unchecked access -/
+theorem chunk_outcomes (W : Nat) (hW : 0 < W) (s : St) (h : s.Inv W) (cs j i : Nat) (v : Option Nat) :
+    (¬ (s.len ≤ cs ∨ (cs * s.bw) % W = 0) ∧ chunkOp W s cs j i v = .ok .err) ∨
+    ((s.len ≤ cs ∨ (cs * s.bw) % W = 0) ∧
+      (chunkOp W s cs j i v = .panic ∨ chunkOp W s cs j i v = .ok .noChunk ∨
+        (∃ s', chunkOp W s cs j i v = .ok (.done s')) ∨
+        (∃ x, chunkOp W s cs j i v = .ok (.value x)))) := by
+  rw [chunkOp_eq]
+  by_cases hc : s.len ≤ cs ∨ (cs * s.bw) % W = 0
+  · right
+    refine ⟨hc, ?_⟩
+    have c0 : (decide (s.len ≤ cs) || (cs * s.bw) % W == 0) = true := by
+      cases hc with
+      | inl h => simp [h]
+      | inr h => simp [h]
+    rw [c0, if_pos rfl]
+    have c1 : ¬ (divCeil (s.len * s.bw) W > s.words.size) := by
+      have := divCeil_le_size W _ _ hW h.2.1
+      omega
+    rw [if_neg c1]
+    by_cases hcw : divCeil (cs * s.bw) W = 0
+    · left
+      simp [hcw]
+    · have c2 : (divCeil (cs * s.bw) W == 0) = false := by simp [hcw]
+      rw [c2]
+      simp only [Bool.false_eq_true, if_false]
+      by_cases hjn : j * divCeil (cs * s.bw) W ≥ divCeil (s.len * s.bw) W
+      · right; left
+        rw [if_pos hjn]
+      · rw [if_neg hjn]
+        obtain ⟨cinv, _⟩ := chunkSt_facts W hW s h cs j hc hcw (by omega)
+        cases v with
+        | none =>
+          simp only []
+          rw [get_inv W hW _ cinv i]
+          by_cases hi : i ≥ (chunkSt W s cs j).len
+          · left; rw [if_pos hi]; rfl
+          · right; right; right
+            rw [if_neg hi]
+            exact ⟨_, rfl⟩
+        | some v =>
+          simp only []
+          rcases set_inv W hW _ cinv i v with ⟨_, e⟩ | ⟨_, _, ws', e, _⟩
+          · left; rw [e]; rfl
+          · right; right; left
+            rw [e]
+            exact ⟨_, rfl⟩
+  · left
+    refine ⟨hc, ?_⟩
+    have c0 : (decide (s.len ≤ cs) || (cs * s.bw) % W == 0) = false := by
+      have h1 : ¬ s.len ≤ cs := fun h => hc (Or.inl h)
+      have h2 : ¬ (cs * s.bw) % W = 0 := fun h => hc (Or.inr h)
+      simp [h1, h2]
+    rw [c0]
+    simp
+
+theorem chunk_err_iff' (W : Nat) (hW : 0 < W) (s : St) (h : s.Inv W) (cs j i : Nat) (v : Option Nat) :
+    chunkOp W s cs j i v = .ok .err ↔ ¬ (s.len ≤ cs ∨ (cs * s.bw) % W = 0) := by
+  rcases chunk_outcomes W hW s h cs j i v with ⟨h1, h2⟩ | ⟨h1, h2⟩
+  · exact ⟨fun _ => h1, fun _ => h2⟩
+  · constructor
+    · intro e
+      rcases h2 with h2 | h2 | ⟨_, h2⟩ | ⟨_, h2⟩ <;> rw [h2] at e <;> cases e
+    · intro hn; exact absurd h1 hn
+
+theorem chunk_no_oob' (W : Nat) (hW : 0 < W) (s : St) (h : s.Inv W) (cs j i : Nat) (v : Option Nat) :
+    chunkOp W s cs j i v ≠ .oob := by
+  intro e
+  rcases chunk_outcomes W hW s h cs j i v with ⟨_, h2⟩ | ⟨_, h2 | h2 | ⟨_, h2⟩ | ⟨_, h2⟩⟩ <;>
+    rw [h2] at e <;> cases e
+
+/-- `chunks_mut(0)`: chunk size 0 or bit width 0 panics (when `Err` is not returned first) -/
+theorem chunk_zero (W : Nat) (hW : 0 < W) (s : St) (h : s.Inv W) (cs j i : Nat) (v : Option Nat)
+    (hc : s.len ≤ cs ∨ (cs * s.bw) % W = 0) (h0 : cs * s.bw = 0) :
+    chunkOp W s cs j i v = .panic := by
+  rw [chunkOp_eq]
+  have c0 : (decide (s.len ≤ cs) || (cs * s.bw) % W == 0) = true := by
+    cases hc with
+    | inl h => simp [h]
+    | inr h => simp [h]
+  have c1 : ¬ (divCeil (s.len * s.bw) W > s.words.size) := by
+    have := divCeil_le_size W _ _ hW h.2.1
+    omega
+  rw [c0, if_pos rfl, if_neg c1, h0, divCeil_zero W hW]
+  simp
+
+/-- `get_unaligned` agrees with `get` -/
+theorem unaligned_get' (W : Nat) (h8 : 8 ∣ W) (hW : 0 < W) (s : St) (h : s.Inv W) (i : Nat)
+    (hi : i < s.len) (hadm : s.bw ≤ W - 8 + 2 ∨ s.bw = W - 8 + 4 ∨ s.bw = W)
+    (hpad : (i * s.bw) / 8 + W / 8 ≤ s.words.size * (W / 8)) :
+    getUnaligned W s i = get W s i := by
+  rw [unaligned_get W h8 hW s h i hi hadm hpad, get_inv W hW s h i, if_neg (by omega)]
+
 end Sux.BFV.C10
